@@ -21,6 +21,7 @@ EXPLANATION = (
     "mapping reads Progress<ValueOf<Iterations>> and writes InertiaWeight<ParticleVelocitiesUpdate>, the state the "
     "velocity update reads, and runs once per pass; init stores the configured start weight. (R4) PersonalBestParticlesInit / ParticleVelocitiesInit leave exactly one memory / one velocity (one fresh draw from [-v_max, v_max] per dimension) per particle whatever their collections held before (re-initialisation). (INIT) init() evaluated with every field of self a distinct symbol inserts exactly the state types of a reviewed table, under the component's own instantiation, each built from exactly the documented field or empty / zero. NOT decided: numeric "
     "values of the interpolation over a whole run.")
+EXPLANATION += " " + '(R1/R3/R4 revised) inertia weight, velocities, personal and global bests are cells of the typed store: the verdicts are read off what the state holds afterwards.'
 ASSUMPTIONS = ["f64::clamp and IEEE arithmetic as modelled by the host"]
 
 PSO = "mahf::components::swarm::pso::"
